@@ -27,12 +27,15 @@ of the base scan in `rolling_hashx_base.c`, for every window `1 ≤ w ≤ 48`:
 `H` refers to `Spec.rollingTable`, which `GenProps/RollingTable.lean` ties to the table found in the
 current source ("across library versions").
 
-Hypotheses, all of them necessary:
-* `max_len < 2^31` (`Call.Valid`, `stream.size < 2^31`): `_rolling_hash2_run_until_base` keeps its
-  index and bound in `int`s; beyond that it consumes nothing — defect F4, see `F4_witness` below;
+Hypotheses:
+* `max_len < 2^32` and `max_len ≤` size of the buffer (`Call.Valid`; `stream.size < 2^32`): what the
+  API gives — `max_len` is a `uint32_t` and the caller owns that many bytes.  (Up to commit 4824648
+  the base scan kept index and bound in `int`s and the theorems needed `max_len < 2^31`: defect F4,
+  documented by `F4_old_code_witness` at the end of this file.)
 * `ScanRefinesBase scan`: the inner scan in the dispatch cell computes what the base scan computes.
   It holds of `runUntilBase` by definition; for `_rolling_hash2_run_until_00/_04` it is what the
-  correspondence harness (`harness/drv_rolling.c`) tests — and currently refutes (defect F5);
+  correspondence harness (`harness/drv_rolling.c`) tests (it failed for an odd trailing byte until
+  commit 57e0491, defect F5);
 * `trigger & ~mask == 0` is **not** needed for the base scan (then no position hits, and the model
   agrees); the AVX2 scan needs it (it compares `pext`-compressed values).
 
@@ -49,7 +52,7 @@ open IsalVerif IsalVerif.Spec.Rolling IsalVerif.Impl.Rolling IsalVerif.Lemmas.Ro
 last `w` bytes of everything seen. -/
 theorem C09_run (scan : ScanFn) (hscan : ScanRefinesBase scan) (w : Nat) (hw1 : 1 ≤ w) (hw48 : w ≤ 48)
     (win : Bytes) (st : RhState) (inv : Inv w win st)
-    (buffer : Buf) (maxLen : Nat) (hlen : maxLen ≤ buffer.size) (h31 : maxLen < 2 ^ 31)
+    (buffer : Buf) (maxLen : Nat) (hlen : maxLen ≤ buffer.size) (h32 : maxLen < 2 ^ 32)
     (mask trigger : UInt32) :
     (∀ k, firstHit w mask trigger win (buffer.toList.take maxLen) = some k →
       (run scan st buffer maxLen mask trigger).ret = ISAL_FINGERPRINT_RET_HIT ∧
@@ -63,7 +66,7 @@ theorem C09_run (scan : ScanFn) (hscan : ScanRefinesBase scan) (w : Nat) (hw1 : 
     Inv w (lastN w (win ++ buffer.toList.take (run scan st buffer maxLen mask trigger).offset))
       (run scan st buffer maxLen mask trigger).state := by
   have hwin := inv.win_length hw48
-  have g := run_good mask trigger hscan hw1 hw48 inv hlen h31
+  have g := run_good mask trigger hscan hw1 hw48 inv hlen h32
   have hdata : (buffer.toList.take maxLen).length = maxLen := by
     simp only [List.length_take, Array.length_toList]; omega
   refine ⟨?_, ?_, g.le, ?_, g.inv_lastN hwin hlen⟩
@@ -143,7 +146,7 @@ arbitrary sizes `lens` (0 and sizes below `w` included; each clipped to what is 
 at exactly the specification's boundaries of the part of the stream that was consumed. -/
 theorem C09_boundaries (scan : ScanFn) (hscan : ScanRefinesBase scan) (w : Nat) (hw1 : 1 ≤ w)
     (hw48 : w ≤ 48) (st0 : RhState) (hst0 : st0.history.length = 48) (initBytes : Buf)
-    (hinit : w ≤ initBytes.size) (stream : Buf) (hsz : stream.size < 2 ^ 31) (mask trigger : UInt32)
+    (hinit : w ≤ initBytes.size) (stream : Buf) (hsz : stream.size < 2 ^ 32) (mask trigger : UInt32)
     (lens : List Nat) :
     (scanStream scan stream mask trigger (reset (init st0 w).2 initBytes) 0 lens).1 =
       boundaries w mask trigger (initBytes.toList.take w)
@@ -167,7 +170,7 @@ sequences, possibly different scan implementations) that both consume the whole 
 same boundaries: those of the specification. -/
 theorem C09_split (scan₁ scan₂ : ScanFn) (h₁ : ScanRefinesBase scan₁) (h₂ : ScanRefinesBase scan₂)
     (w : Nat) (hw1 : 1 ≤ w) (hw48 : w ≤ 48) (st0 : RhState) (hst0 : st0.history.length = 48)
-    (initBytes : Buf) (hinit : w ≤ initBytes.size) (stream : Buf) (hsz : stream.size < 2 ^ 31)
+    (initBytes : Buf) (hinit : w ≤ initBytes.size) (stream : Buf) (hsz : stream.size < 2 ^ 32)
     (mask trigger : UInt32) (lens₁ lens₂ : List Nat)
     (hall₁ : (scanStream scan₁ stream mask trigger (reset (init st0 w).2 initBytes) 0 lens₁).2.1 = stream.size)
     (hall₂ : (scanStream scan₂ stream mask trigger (reset (init st0 w).2 initBytes) 0 lens₂).2.1 = stream.size) :
@@ -187,7 +190,7 @@ theorem C09_split (scan₁ scan₂ : ScanFn) (h₁ : ScanRefinesBase scan₁) (h
 progress: e.g. `|stream|` or more calls that are each offered at least one byte -/
 theorem C09_split_progress (scan : ScanFn) (hscan : ScanRefinesBase scan) (w : Nat) (hw1 : 1 ≤ w)
     (hw48 : w ≤ 48) (st0 : RhState) (hst0 : st0.history.length = 48) (initBytes : Buf)
-    (hinit : w ≤ initBytes.size) (stream : Buf) (hsz : stream.size < 2 ^ 31) (mask trigger : UInt32)
+    (hinit : w ≤ initBytes.size) (stream : Buf) (hsz : stream.size < 2 ^ 32) (mask trigger : UInt32)
     (lens : List Nat) (hpos : ∀ m ∈ lens, 1 ≤ m) (hmany : stream.size ≤ lens.length) :
     (scanStream scan stream mask trigger (reset (init st0 w).2 initBytes) 0 lens).2.1 = stream.size := by
   have inv0 := (reset_holds w hw48 st0 hst0 initBytes hinit).2
@@ -251,12 +254,43 @@ example : (scanStream runUntilBase #[0, 1, 2, 3, 4, 5, 6, 7, 8, 9, 10, 11] 3 2 e
 example : maskGen 1000 3 = 0xff8 := by decide +kernel
 example : maskGen 0 1 = 2 ∧ maskGen 2 1 = 2 ∧ maskGen 3 1 = 2 ∧ maskGen 4 1 = 6 := by decide +kernel
 
-/-- **F4 witness**: the hypothesis `max_len < 2^31` cannot be dropped.  With `max_len = 2^31`
-(`(int) max_len < 0`) the base scan does not execute a single iteration: the call returns MAX
-having consumed only the `w` bytes of the first loop. -/
-theorem F4_witness :
-    (run runUntilBase exSt (Array.replicate 64 0) (2 ^ 31) 0xffffffff 1).ret = ISAL_FINGERPRINT_RET_MAX ∧
-    (run runUntilBase exSt (Array.replicate 64 0) (2 ^ 31) 0xffffffff 1).offset = 2 := by
+/-! ## documentation: the base scan before commit 4824648 (defect F4)
+
+Not part of the model of the current tree.  The old `_rolling_hash2_run_until_base` read
+`int i = *idx; for (; i < max_idx; i++)` with `int max_idx`: a length `≥ 2^31` arrived negative and
+the loop body never ran. -/
+
+/-- conversion `uint32_t → int` (two's complement) -/
+def toInt32 (n : Nat) : Int :=
+  let m : Nat := n % 2 ^ 32
+  if m < 2 ^ 31 then (m : Int) else (m : Int) - 2 ^ 32
+
+/-- the old loop: `int i`, `int max_idx` -/
+def untilLoopInt (hit : UInt64 → Bool) (maxIdx : Int) (t1 t2 : UInt8 → UInt64) (b1 b2 : Ptr)
+    (i : Int) (h : UInt64) : Int × UInt64 :=
+  if i < maxIdx then
+    let h := rol1 h
+    let h := h ^^^ (t1 (b1.rd i) ^^^ t2 (b2.rd i))
+    if hit h then (i, h) else untilLoopInt hit maxIdx t1 t2 b1 b2 (i + 1) h
+  else (i, h)
+termination_by (maxIdx - i).toNat
+decreasing_by omega
+
+/-- the old `_rolling_hash2_run_until_base` -/
+def runUntilBaseOld : ScanFn := fun idx maxIdx t1 t2 b1 b2 h mask trigger =>
+  let r :=
+    if trigger == 0 then untilLoopInt (fun h => (h &&& mask) == 0) (toInt32 maxIdx) t1 t2 b1 b2 (toInt32 idx) h
+    else untilLoopInt (fun h => (h &&& mask) == trigger) (toInt32 maxIdx) t1 t2 b1 b2 (toInt32 idx) h
+  (r.1.toNat % 2 ^ 32, r.2)
+
+/-- **F4 (fixed).**  With the old scan and `max_len = 2^31` the call returned MAX having consumed
+only the `w` bytes of the first loop; the current scan consumes all the caller offers (here the 64
+bytes that exist, to keep the example small: `max_len` 64 gives offset 64). -/
+theorem F4_old_code_witness :
+    (run runUntilBaseOld exSt (Array.replicate 64 0) (2 ^ 31) 0xffffffff 1).ret = ISAL_FINGERPRINT_RET_MAX ∧
+    (run runUntilBaseOld exSt (Array.replicate 64 0) (2 ^ 31) 0xffffffff 1).offset = 2 ∧
+    (run runUntilBase exSt (Array.replicate 64 0) 64 0xffffffff 1).offset = 64 ∧
+    (run runUntilBaseOld exSt (Array.replicate 64 0) 64 0xffffffff 1).offset = 64 := by
   decide +kernel
 
 end IsalVerif.Props.C09
